@@ -323,6 +323,8 @@ class _TreeGen:
 
         nphases = rng.randint(2, 6)
         maxlen = 60 if tier == "quick" else 160
+        if tier != "quick" and rng.random() < 0.05:     # soak: one long history on a large key space
+            nphases, maxlen, krange = 40, 400, rng.choice([300, 1000, 5000])
         for _ in range(nphases):
             if focus in ("growth", "fault"):
                 phase = rng.choice(["grow", "grow", "grow", "mixed", "lookup"])
@@ -348,6 +350,8 @@ class _TreeGen:
                 style = rng.choice(["asc", "desc", "random", "first", "last", "present"])
                 for _ in range(length):
                     ks = h.sorted_keys()
+                    if not ks and rng.random() < 0.7:
+                        break               # an empty table: at most a few rejected removals
                     no = allf and rng.random() < 0.2
                     if style == "first" and self.kind == "table":
                         h.remove_first(no)
